@@ -65,7 +65,7 @@ class _:
 
     @staticmethod
     def modifies(o):
-        return [("map", "DH.String.Int"), ("map", "DV.String.Int"), ("alloc",), ("fresh-lists", INT)]
+        return [("map", "DH.String.Int"), ("map", "DV.String.Int"), ("map", "DSZ.String.Int"), ("alloc",), ("fresh-lists", INT)]
 
     raises = {"ValueError": lambda o: o.self._scaffold_dict.has(o.scffld.name)}
 
@@ -147,7 +147,7 @@ def _idx_facts(rows, idx):
     ]
 
 
-@contract(f"{M}.find_overlaps", properties=("C12", "C18"))
+@contract(f"{M}.find_overlaps", properties=("C12", "C18", "C07"))
 class _:
     params = {"self": IA, "bait": FRAG}
     result = TOpt(TRef("OverlapResult"))
